@@ -168,6 +168,8 @@ let minigo_line l =
              let k2 = next () in let xe = if k2 = "-" then None else Some (var_of k2) in
              let f = nexti () in let n = nexti () in
              let args = List.init n (fun _ -> atom ()) in SCall2 (nat_of_int cs, x, xe, nat_of_int f, args)
+    | "Q" -> let cs = nexti () in let f = nexti () in let n = nexti () in
+             let args = List.init n (fun _ -> atom ()) in SRetCall (nat_of_int cs, nat_of_int f, args)
     | "v" -> let k = next () in let x = var_of k in let ik = nexti () in let j = nexti () in
              SConv (x, nat_of_int ik, nat_of_int j)
     | "j" -> let cs = nexti () in let d = nexti () in
